@@ -108,7 +108,10 @@ Record pcase := {
   pc_assets : assets; pc_trigger : trigger; pc_flow : id; pc_batch : bool;
   pc_resumes : list resume;
   pc_streams : list (list (list N));        (* distinct observed executions: one token stream per engine call *)
-  pc_runs : list (list bool * nat)          (* restart pattern (restart before the i-th resume?), index into pc_streams *)
+  pc_runs : list (list bool * nat * list (list N))
+    (* restart pattern (restart before the i-th resume?), index into pc_streams, and what the implementation's session
+       answered right after every ReadSession of that execution, before the next call: BatchStart(), CurrentResume(),
+       ParentRun() != nil *)
 }.
 
 Definition timeout_text : text := [84].     (* the canonical value of results saved by a timeout route *)
@@ -130,11 +133,14 @@ Fixpoint streams_eqb (a b : list (list N)) : bool :=
   | _, _ => false
   end.
 
+Definition run_case_reads (c : pcase) (bs : list bool) : list (list N) :=
+  map p_transient (history_reread_contexts (pc_assets c) timeout_text (pc_trigger c) (pc_flow c) (pc_batch c) (with_pattern bs (pc_resumes c))).
+
 Definition check (c : pcase) : bool :=
-  forallb (fun '(bs, k) => match nth_error (pc_streams c) k with
-                           | Some obs => streams_eqb (run_case c bs) obs
-                           | None => false
-                           end) (pc_runs c)
+  forallb (fun '(bs, k, reads) => match nth_error (pc_streams c) k with
+                                  | Some obs => streams_eqb (run_case c bs) obs && streams_eqb (run_case_reads c bs) reads
+                                  | None => false
+                                  end) (pc_runs c)
   && negb (match pc_runs c with [] => true | _ => false end).
 
 Fixpoint mismatches_from (i : N) (cs : list pcase) : list N :=
